@@ -370,7 +370,8 @@ class Evaluator:
             return ("opt", False, None)
         if name in PASS_THROUGH_CALLS and len(args) == 1:
             return self.ev(args[0], env)
-        vals = [self.rv(a, env) for a in args]
+        # a pack among the arguments (`OP(args...)` in a variadic worker) stands for the values it was bound to
+        vals = [self.deref(x[1]) if x[0] == "val" else self.rv(x[1], env) for x in flat_args]
         if name in WRAP_FACTORIES:
             if len(vals) == 1:
                 return ("opt", True, self.as_term(vals[0]))
